@@ -23,11 +23,13 @@ def main():
         # a numba cache directory exists per source digest; when the tree changed, populate the
         # new one from a single process first instead of letting 16 shards compile concurrently
         nb_dir = boot.numba_cache_dir()
-        if len(os.listdir(nb_dir)) < 20 and not os.environ.get("VERIF_NO_WARMUP"):
+        marker = os.path.join(nb_dir, "WARMED")
+        if not os.path.exists(marker) and not os.environ.get("VERIF_NO_WARMUP"):
             import subprocess
 
             subprocess.run([boot.PYTHON, "-m", "vf.warmup"], env=boot.child_env(), cwd=boot.VERIF,
                            stdout=subprocess.DEVNULL, stderr=subprocess.DEVNULL, timeout=900)
+            open(marker, "w").write("ok\n")
     except build.BuildError as e:
         print("INCONCLUSIVE property=%s reason=native build failed: %s" % (pid, str(e)[:1500]))
         return 2
